@@ -39,9 +39,10 @@
 // Surface-syntax restrictions of the generator (scanner / loader rules of the unchanged tree, not AST matters):
 // a node that carries an annotation stands alone on its line (an object's `{` and its first property never
 // share a line); a bare rule name may be followed by spaces but not by a tab; a note never contains `#` (it
-// starts a user comment that cuts the note); numbers have no exponent; inside an `or` rule-set the rule name
-// `enum` is recognised only when written bare and immediately followed by `:` (`{"enum": [1]}` and
-// `{enum : [1]}` inside `or` give error 805 although both are fine at the top level of an annotation).
+// starts a user comment that cuts the note); numbers have no exponent. (The earlier restriction on the rule name
+// `enum` inside an `or` rule-set is gone: quoted / blank-followed spellings are generated since the library fix.)
+// String literals include contents that look like other JSON kinds ("1.5", "true", "{", "", "a.b", escaped
+// spellings); such cases are evaluated 8 times in one run and every evaluation must give the expected tree.
 package c16
 
 import (
@@ -103,6 +104,23 @@ func oneCase(seed int64) result {
 		n, err := realAST(c)
 		ch <- out{n, err}
 	}()
+	// a case that holds a string whose content looks like another JSON kind is evaluated 8 times: every
+	// evaluation must give the expected tree (nothing may depend on the run)
+	reps := 1
+	if g.stats["lookalike_string"] > 0 {
+		reps = 8
+	}
+	for rpt := 1; rpt < reps; rpt++ {
+		n, err := realAST(c)
+		if err != nil {
+			res.model, res.impl, res.diff = toJSON(want), "ERROR "+err.Error(), fmt.Sprintf("GetAST failed in evaluation %d of %d", rpt+1, reps)
+			return res
+		}
+		if d := diffNode("root", n, want); d != "" {
+			res.model, res.impl, res.diff = toJSON(want), toJSON(n), fmt.Sprintf("evaluation %d of %d: %s", rpt+1, reps, d)
+			return res
+		}
+	}
 	select {
 	case o := <-ch:
 		res.model = toJSON(want)
